@@ -86,6 +86,23 @@ def gen_cases(rng, tier):
             r = big_set(rng, "rel")
             keys = [("r", X.dot(d, "b")), ("s", X.dot(d, "c"))] if rng.random() < 0.7 else [("r", X.dot(d, "b")), ("s", X.dot(d, "c")), ("t", X.dot(d, "a"))]
             out.append(("rank several keys", X.rank(r, X.dotfn(X.tup(keys)))))
+    # set patterns against big sets (a surplus member must never be picked), unions holding a big dict, dicts of every size printed
+    for _ in range(30 if tier == "quick" else 300):
+        S = X.src(big_set(rng, "nums"))
+        bigd = X.src(big_set(rng, "dict"))
+        k = rng.random()
+        if k < 0.25:
+            out.append(("setpat name", ("raw", "(cond %s {{x_}: x_, {%s, x_}: x_, _: \"none\"})" % (S, rng.randrange(40)))))
+        elif k < 0.4:
+            out.append(("setpat rest", ("raw", "(cond %s {{%s, ...r_}: r_, {...r_}: r_})" % (S, rng.randrange(40)))))
+        elif k < 0.55:
+            out.append(("setpat let", ("raw", "(let {x_, ...} = %s; x_)" % S)))
+        elif k < 0.75:
+            out.append(("union with dict", ("raw", "(%s | {42})" % bigd)))
+        elif k < 0.9:
+            out.append(("union with dict text", ("raw", "$\"${%s with \"x\"}\"" % bigd)))
+        else:
+            out.append(("dict json", ("raw", "//encoding.json.encode(%s | {42})" % bigd)))
     # the committed witness of the open finding: superimposed array items keep "the last one written"
     out.append(("collide", X.darrow(X.set_([N(i) for i in range(1, 14)]), X.dotfn(X.tup([("@", N(0)), ("@item", X.var("."))])))))
     cases = []
